@@ -133,6 +133,12 @@ def oracle_run(cfg):
             y5 = y.reshape(y.shape[0], -1, 4, y.shape[-2], y.shape[-1])
             if not (torch.allclose(y5[:, :, 0], yl, rtol=0, atol=1e-12) and torch.allclose(y5[:, :, 1:], yh[0], rtol=0, atol=1e-12)):
                 return dict(detail='DWTForward(4-tuple) differs from lowlevel.afb2d with the same four filters')
+            # the same four filters handed over as PREPARED tensors (the documented order is column pair, then row pair)
+            prep = ll.prep_filt_afb2d(*[np.array(f) for f in filts])
+            prep = tuple(t.double() for t in prep)
+            yp = ll.afb2d(torch.tensor(X), prep, mode=mode)
+            if yp.shape != y.shape or not torch.allclose(yp, y, rtol=0, atol=1e-5 * max(1.0, float(y.abs().max()))):
+                return dict(detail='lowlevel.afb2d with four prepared filter tensors differs from afb2d with the same four arrays')
             g = (wc.rec_lo, wc.rec_hi, wr.rec_lo, wr.rec_hi)
             z = ll.sfb2d(yl, yh[0][:, :, 0], yh[0][:, :, 1], yh[0][:, :, 2], [np.array(f) for f in g], mode=mode)
             z2 = DWTInverse(wave=g, mode=mode)((yl, yh))
